@@ -73,7 +73,7 @@ func runC10(c *Ctx) {
 	R.Rule("waitgroup", "wg.Add(k) inside the region before the launches with k = product of the enclosing loops' trip counts; launched function signals Done once after its send; Wait on the same WaitGroup", 3)
 	R.Rule("fan-out", "each publisher: whole subscriber list (inner loop), whole event slice (outer loop), one send/launch of that event to that subscriber per iteration", 6)
 	R.Rule("close-pairing", "Unsub closes exactly the channel it splices out; UnsubAll closes all and clears; no other close", 3)
-	R.Rule("timeout-dichotomy", "OnPubTimeout is called exactly when SendTimeout returned false and the hook is set, once, with the event", 1)
+	R.Rule("timeout-dichotomy", "every sending helper either calls SendTimeout itself and calls the hook exactly when it returned false and the hook is set, once, with the event, or hands its own event, channel, timeout and hook on to one that does", 2)
 	R.Rule("send-reports", "SendTimeout (the helper every publish variant sends through) returns true exactly on the paths that performed the one send", 1)
 	R.Rule("lock-pairing", "on every path each Lock/RLock of the PubSub mutex is released by the matching Unlock/RUnlock before the function returns; nothing is released that is not held; no nested acquisition", 10)
 	R.Rule("sub-index", "subIndex scans the whole list, returns i where subs[i] == sub, and -1 after the scan", 1)
@@ -995,14 +995,108 @@ func (x *c10) closePairing() {
 
 func (x *c10) timeoutDichotomy() {
 	c := x.c
-	fi := c.fn("timeout-dichotomy", "chans.(*PubSub).send")
-	if fi == nil {
+	if c.fn("timeout-dichotomy", "chans.(*PubSub).send") == nil {
 		return
 	}
+	senders := x.senders()
+	for _, fi := range x.funcs {
+		chIdx, isS := senders[fi.SSA]
+		if !isS {
+			continue
+		}
+		x.timeoutDichotomyOf(fi, chIdx, senders)
+	}
+}
+
+// c10Roles: the parameters of a sending helper by role, found by type: the channel, the event (the channel's element
+// type), the timeout (time.Duration) and the hook (a function value)
+func c10Roles(fi *FuncInfo, chIdx int) (ev, sub, timeout, hook *Term) {
+	if chIdx >= len(fi.SSA.Params) {
+		return
+	}
+	sub = paramOf(fi, chIdx)
+	ch, _ := fi.SSA.Params[chIdx].Type().Underlying().(*types.Chan)
+	for i, p := range fi.SSA.Params {
+		if i == 0 || i == chIdx {
+			continue
+		}
+		switch {
+		case ch != nil && ev == nil && types.Identical(p.Type(), ch.Elem()):
+			ev = paramOf(fi, i)
+		case timeout == nil && p.Type().String() == "time.Duration":
+			timeout = paramOf(fi, i)
+		default:
+			if _, isF := p.Type().Underlying().(*types.Signature); isF && hook == nil {
+				hook = paramOf(fi, i)
+			}
+		}
+	}
+	return
+}
+
+func (x *c10) timeoutDichotomyOf(fi *FuncInfo, chIdx int, senders map[*ssa.Function]int) {
+	c := x.c
 	ps := x.paths[fi]
 	ok, why := true, ""
-	// params: o, ev, sub, timeout, onTimeout
-	ev, sub, timeout, hook := paramOf(fi, 1), paramOf(fi, 2), paramOf(fi, 3), paramOf(fi, 4)
+	ev, sub, timeout, hook := c10Roles(fi, chIdx)
+	if ev == nil || sub == nil || timeout == nil || hook == nil {
+		c.R.Refuted("timeout-dichotomy", fi.Name, "rows", c.pos(fi), "the sending helper does not receive the event, the channel, the timeout and the hook: it cannot honour the timeout configuration")
+		return
+	}
+	direct := false
+	for _, p := range ps {
+		for i := range p.Events {
+			e := &p.Events[i]
+			if e.Kind == "send" || (e.Kind == "call" && (strings.HasSuffix(e.Name, "chans.SendTimeout") || strings.HasSuffix(e.Name, "chans.SendContext"))) {
+				direct = true
+			}
+		}
+	}
+	if !direct {
+		// pass-through: exactly one call of another sending helper per path, with this function's own event, channel, timeout and hook
+		for _, p := range ps {
+			n := 0
+			for i := range p.Events {
+				e := &p.Events[i]
+				if e.Kind != "call" {
+					continue
+				}
+				ci, isS := senders[e.SSAFn]
+				if !isS {
+					continue
+				}
+				n++
+				g := c.P.BySSA[e.SSAFn]
+				if g == nil {
+					ok, why = false, "delegates to a function outside the analysed package"
+					continue
+				}
+				gev, gsub, gto, ghook := c10Roles(g, ci)
+				if gev == nil || gsub == nil || gto == nil || ghook == nil {
+					ok, why = false, "delegates to "+g.Name+", which does not take event, channel, timeout and hook"
+					continue
+				}
+				arg := func(t *Term) *Term {
+					if t.N < len(e.Args) {
+						return e.Args[t.N]
+					}
+					return nil
+				}
+				same := func(a, b *Term) bool { return a != nil && a.Key() == b.Key() }
+				if !same(arg(gev), ev) || !same(arg(gsub), sub) || !same(arg(gto), timeout) || !same(arg(ghook), hook) {
+					ok, why = false, "does not hand its own event, channel, timeout and hook on to "+g.Name+": the timeout configuration is lost on this route"
+				}
+			}
+			if n != 1 && p.End != EndPanic {
+				ok, why = false, fmt.Sprintf("a path performs %d sends", n)
+			}
+		}
+		o := c.R.Decide(ok, "timeout-dichotomy", fi.Name, "passthrough", c.pos(fi), "one delegation per path, handing on its own event, channel, timeout and hook", why)
+		if !ok {
+			o.Breaks = "with a positive PubTimeoutAfter a timed-out (event, subscriber) pair ends in neither a delivery nor an OnPubTimeout call on this route"
+		}
+		return
+	}
 	sawHook := false
 	for _, p := range ps {
 		var st, hk []*Event
@@ -1044,9 +1138,12 @@ func (x *c10) timeoutDichotomy() {
 		}
 	}
 	if ok && !sawHook {
-		ok, why = false, "the timeout hook is never called"
+		ok, why = false, "the timeout hook is never called: the result of SendTimeout is dropped"
 	}
-	c.R.Decide(ok, "timeout-dichotomy", fi.Name, "rows", c.pos(fi), "hook called exactly when SendTimeout returned false and the hook is non-nil", why)
+	o := c.R.Decide(ok, "timeout-dichotomy", fi.Name, "rows", c.pos(fi), "hook called exactly when SendTimeout returned false and the hook is non-nil", why)
+	if !ok {
+		o.Breaks = "with a positive PubTimeoutAfter a timed-out (event, subscriber) pair ends in neither a delivery nor an OnPubTimeout call, or in both"
+	}
 }
 
 // ---- error-table -----------------------------------------------------------------------
